@@ -113,16 +113,16 @@ def conc_legs(workload, tier, sanitizers=False, scale=1.0):
     Miri with different seeds / preemption rates, and (memory-class properties) ThreadSanitizer."""
     q = tier == "quick"
     out = [
-        conc(f"conc-{workload}", workload, runs=2500 if q else int(12_000 * scale), shards=6 if q else 16, timeout=600 if q else 2400),
+        conc(f"conc-{workload}", workload, runs=2500 if q else int(4_000 * scale), shards=6 if q else 16, timeout=600 if q else 2400),
         conc(f"conc-{workload}-miri", workload, variant="miri", runs=4 if q else 12, shards=3 if q else 16, timeout=300 if q else 1500,
              miriflags="-Zmiri-preemption-rate=0.05", seed_offset=700),
     ]
     # debug assertions on: the crate's own consistency debug_assert!s become panics (= C01 violations)
-    out.append(conc(f"conc-{workload}-dbg", workload, variant="dbg", runs=1500 if q else int(8_000 * scale), shards=4 if q else 8, timeout=600 if q else 2400, seed_offset=600))
+    out.append(conc(f"conc-{workload}-dbg", workload, variant="dbg", runs=1500 if q else int(3_000 * scale), shards=4 if q else 8, timeout=600 if q else 2400, seed_offset=600))
     if not q:
         out.append(conc(f"conc-{workload}-miri-p2", workload, variant="miri", runs=8, shards=8, timeout=1500, miriflags="-Zmiri-preemption-rate=0.2", seed_offset=900))
     if sanitizers:
-        out.append(conc(f"conc-{workload}-tsan", workload, variant="tsan", runs=600 if q else int(4_000 * scale), shards=2 if q else 8, timeout=600 if q else 2400, seed_offset=800))
+        out.append(conc(f"conc-{workload}-tsan", workload, variant="tsan", runs=600 if q else int(1_500 * scale), shards=2 if q else 8, timeout=600 if q else 2400, seed_offset=800))
     return out
 
 
